@@ -416,17 +416,9 @@ class SessionHandler:
 
     @staticmethod
     def _verify_session_id(previous: str, current: str) -> None:
-        if previous is not None:
-            _previous = previous.split(";")
-
-            if _previous:
-                if current == _previous[0]:
-                    SessionHandler.id += 1
-                    return
-
-            SessionHandler.reset()
-            return
-        
+        #: The <high 32 bits; low 32 bits> pair must never repeat within the
+        #: process lifetime, whatever identity the Session-Id is built for:
+        #: the low part counts every generated Session-Id.
         SessionHandler.id += 1
 
 
